@@ -4,3 +4,12 @@ pub mod entry;
 pub mod io;
 pub mod speech;
 pub mod word;
+
+/// verification hook: exposes the crate-private guesser
+#[cfg(chokan_verif)]
+pub mod verif {
+    use super::speech::Speech;
+    pub fn guess(word: &str) -> (Speech, String) {
+        Speech::guess(word)
+    }
+}
